@@ -330,7 +330,9 @@ def create_linear_transform(linear_transform, features):
             [
                 transforms.RandomPermutation(features=features),
                 transforms.SVDLinear(
-                    features, num_householder=10, identity_init=True
+                    features,
+                    num_householder=2 * min(features, 5),
+                    identity_init=True,
                 ),
             ]
         )
